@@ -83,3 +83,144 @@ RECIPES = [
     ("C10", "neutral", [], FDE, "        Gmax = np.sqrt(np.vstack((G4, G8, G12)) * (Q * pi * freq * lnN0))", "        kk = lnN0 * freq * pi * Q\n        Gmax = np.vstack((np.sqrt(G4 * kk), np.sqrt(kk * G8), np.sqrt(G12 * kk)))",
      "peak amplitudes row by row"),
 ]
+
+
+# ============================================================================================ second hardening pass (neutral patches N5-N8)
+_GB_VEC = """        if check_bounds:
+            if right:
+                if mn <= bb[0] or mx > bb[-1]:
+                    out_of_bounds = True
+                else:
+                    out_of_bounds = False
+            else:
+                if mn < bb[0] or mx >= bb[-1]:
+                    out_of_bounds = True
+                else:
+                    out_of_bounds = False
+"""
+
+_BINIFY_LOOPS = """    if ensure_boundaries:
+        for i in range(len(cycles)):
+            bim = bin_indices_mean[i]
+            bir = bin_indices_range[i]
+            if (0 <= bim < num_bins_mean) and (0 <= bir < num_bins_range):
+                markov_matrix[bim, bir] += cycles[i, 2]
+    else:
+        for i in range(len(cycles)):
+            markov_matrix[bin_indices_mean[i], bin_indices_range[i]] += cycles[i, 2]
+"""
+
+_FINDAP_TAIL = """        if allu:
+            return pv
+
+        # expand to full size:
+        PV = np.zeros(y.size, bool)  # non-uniques are not peaks
+        PV[u] = pv
+        # [ True, False, False,  True, False,  True, False, False]
+        return PV
+"""
+
+_FINDAP_YU = """        if np.all(u):
+            yu = y
+            allu = True
+        else:
+            yu = y[u]
+            # [ 1,  2,  3,  4, -2]
+            allu = False
+"""
+
+_FINDAP_MASK = """        pv = np.ones(yu.size, bool)
+        pv[1:-1] = np.abs(np.diff(s)) == 2
+        if yu.size > 2:
+            pv[-1] = yu[-1] != yu[-2]
+"""
+
+_SERIAL_COUNT = """            amp = rf["amp"]
+            count = rf["count"]
+            Amax[j] = amp.max()
+            BinAmps[j] *= Amax[j]
+
+            # cumulative bin count:
+            for jj in range(nbins):
+                pv = amp >= BinAmps[j, jj]
+                Count[j, jj] = np.sum(count[pv])
+"""
+
+_BINCOUNT = "    BinCount = np.hstack((Count[:, :-1] - Count[:, 1:], Count[:, -1:]))"
+
+
+def _df(text):
+    return ("C10", "neutral", [], FDE, _DF_LOOP, text)
+
+
+def _row_helper(level_update, mask):
+    """the per-frequency counting block through a helper defined in the loop's function, working on row views of the caller's arrays"""
+    return ("            def _cum(levels, crow):\n"
+            "                amax = amp.max()\n"
+            f"                {level_update}\n"
+            "                for jj in range(levels.shape[0]):\n"
+            f"                    crow[jj] = np.sum(count[{mask}])\n"
+            "                return amax\n\n"
+            "            amp = rf[\"amp\"]\n"
+            "            count = rf[\"count\"]\n"
+            "            Amax[j] = _cum(BinAmps[j], Count[j])\n")
+
+
+RECIPES += [
+    # -------------------------------------------------------------------------------------------------------------- neutral
+    _df("    rows = list(zip(BinAmps, BinCount))\n    Df4 = np.array([(amps**b4).dot(cnts) for amps, cnts in rows])\n"
+        "    Df8 = np.array([(amps**b8).dot(cnts) for amps, cnts in rows])\n    Df12 = np.array([(amps**b12).dot(cnts) for amps, cnts in rows])\n")
+    + ("damage indicators over list(zip(BinAmps, BinCount))",),
+    _df("    for j, (amps, cnts) in enumerate(zip(BinAmps, BinCount)):\n        Df4[j] = (amps ** b4).dot(cnts)\n        Df8[j] = (amps ** b8).dot(cnts)\n"
+        "        Df12[j] = (amps ** b12).dot(cnts)\n") + ("damage indicators in an enumerate(zip(...)) loop",),
+    _df("    Df4 = np.array(list(map(lambda a, c: (a ** b4).dot(c), BinAmps, BinCount)))\n"
+        "    Df8 = np.fromiter(map(lambda a, c: (a ** b8).dot(c), BinAmps, BinCount), float)\n"
+        "    Df12 = np.array([*map(lambda a, c: np.inner(np.power(a, b12), c), BinAmps, BinCount)])\n") + ("damage indicators through map / lambda / np.inner / np.power",),
+    _df("    def _di(b):\n        out = np.empty(LF)\n        for j in range(LF):\n            out[j] = (BinAmps[j] ** b).dot(BinCount[j])\n        return out\n\n"
+        "    row12 = lambda k: (BinAmps[k] ** b12).dot(BinCount[k])\n    Df4, Df8 = _di(b4), _di(b8)\n    for j in range(LF):\n        Df12[j] = row12(j)\n")
+    + ("damage indicators through a closure and a named lambda",),
+    ("C10", "neutral", [], FDE, _COUNT_LOOP, "            Count[j, :] = list(map(lambda lv: np.sum(count[amp >= lv]), BinAmps[j]))\n", "cumulative count row through map, stored with a trailing full slice"),
+    ("C10", "neutral", [], FDE, _SERIAL_COUNT, _row_helper("levels *= amax", "amp >= levels[jj]"), "counting block in a helper that updates row views of the caller's arrays in place"),
+    ("C10", "neutral", [], FDE, _BINCOUNT, "    BinCount = np.empty_like(Count)\n    BinCount[:, :-1] = -np.diff(Count, axis=1)\n    BinCount[:, -1] = Count[:, -1]",
+     "BinCount allocated and stored block by block, -np.diff along the columns"),
+    ("C10", "neutral", [], FDE, '    if resp == "absacce":\n        G1 = Amax**2 / (Q * pi * freq * lnN0)', '    if resp != "pvelo":\n        G1 = Amax**2 / (Q * pi * freq * lnN0)',
+     "response arm selected by testing the other literal"),
+    ("C10", "neutral", [], FDE, '    if parallel == "yes":', '    if not parallel == "no":', "serial arm selected by testing 'no'"),
+    ("C10", "neutral", [], FDE, "    if sig.ndim > 1 or freq.ndim > 1:", "    if max(sig.ndim, freq.ndim) > 1:", "input check through max()"),
+    ("C10", "neutral", [], FDE, "            b, a = coeffunc(Q, dT, wn)\n            resphist = signal.lfilter(b, a, sig)", "            resphist = signal.lfilter(*coeffunc(Q, dT, wn), sig)",
+     "filter coefficients passed with a star"),
+    ("C10", "neutral", [], CYC, _GB_VEC, "        if check_bounds:\n            below = (lambda v, e: v <= e) if right else (lambda v, e: v < e)\n"
+     "            out_of_bounds = (True if below(mn, bb[0]) else mx > bb[-1]) if right else bool(below(mn, bb[0]) or mx >= bb[-1])\n", "verdict through ternaries and a lambda chosen by `right`"),
+    ("C10", "neutral", [], CYC, _BINIFY_LOOPS, "    for (bim, bir), cyc in zip(zip(bin_indices_mean, bin_indices_range), cycles):\n"
+     "        if ensure_boundaries and (bim < 0 or bim >= num_bins_mean or bir < 0 or bir >= num_bins_range):\n            continue\n        markov_matrix[bim, bir] += cyc[2]\n",
+     "the two _binify loops merged, zip over the index vectors, continue guard"),
+    ("C10", "neutral", [], CYC, _FINDAP_TAIL, "        def _full():\n            PV = np.full(len(y), False)\n            PV[u] = pv\n            return PV\n\n        return pv if allu else _full()\n",
+     "ternary return, expansion in a closure, np.full(n, False)"),
+    ("C10", "neutral", [], CYC, _FINDAP_TAIL, "        if not allu:\n            PV = np.zeros(y.size, bool)\n            PV[u] = pv\n            pv = PV\n        return pv\n", "single exit: the mask name re-bound to the expanded array"),
+    ("C10", "neutral", [], CYC, _FINDAP_YU, "        allu = bool(u.all())\n        yu = y[u] if not allu else y\n", "all-unique flag and retained samples by ternary"),
+    ("C10", "neutral", [], CYC, _FINDAP_MASK, "        n = yu.size\n        pv = np.full(n, True)\n        pv[1 : n - 1] = np.abs(np.diff(s)) == 2\n        if n >= 3:\n            pv[n - 1] = yu[n - 1] != yu[n - 2]\n",
+     "indices from the end written with the length"),
+    ("C10", "neutral", [], CYC, "    return [form.format(i, j) for i, j in zip(bins[:-1], bins[1:])]",
+     "    labels = []\n    for k in range(len(bins) - 1):\n        labels.append(form.format(bins[k], bins[k + 1]))\n    return labels", "labels built by append in a loop"),
+    ("C10", "neutral", [], CYC, "    return [form.format(i, j) for i, j in zip(bins[:-1], bins[1:])]", "    return list(map(lambda lo, hi: form.format(lo, hi), bins[:-1], bins[1:]))", "labels through map"),
+    ("C10", "neutral", [], LOC, "    stol = abs(tol * abs(m).max())\n    pv = np.hstack((True, abs(m) > stol))\n    return pv",
+     "    scaled = lambda d: abs(tol * d.max())\n    return np.hstack(([True], np.array([d > scaled(abs(m)) for d in abs(m)])))", "tolerance through a lambda, mask spelled element by element"),
+    # ---------------------------------------------------------------------------------------------------------------- break (in refactored spellings)
+    ("C10", "break", ["C10-R1"], FDE, _DF_LOOP, "    rows = list(zip(BinAmps, BinCount))\n    Df4 = np.array([(amps**b4).dot(cnts) for amps, cnts in rows])\n"
+     "    Df8 = np.array([(amps**b4).dot(cnts) for amps, cnts in rows])\n    Df12 = np.array([(amps**b12).dot(cnts) for amps, cnts in rows])\n", "wrong exponent inside a comprehension over zipped rows"),
+    ("C10", "break", ["C10-R1"], FDE, _DF_LOOP, "    Df4 = np.array(list(map(lambda a, c: (a ** b4).dot(c), BinAmps, BinCount)))\n"
+     "    Df8 = np.array(list(map(lambda a, c: (a ** b8).dot(c), BinAmps, Count)))\n    Df12 = np.array(list(map(lambda a, c: (a ** b12).dot(c), BinAmps, BinCount)))\n",
+     "map over the cumulative instead of the non-cumulative counts"),
+    ("C10", "break", ["C10-R3"], FDE, _SERIAL_COUNT, _row_helper("levels *= amax", "amp > levels[jj]"), "helper on row views: cycles on the level excluded"),
+    ("C10", "break", ["C10-R3"], FDE, _SERIAL_COUNT, _row_helper("levels *= amp.min()", "amp >= levels[jj]"), "helper on row views: levels scaled in place by the smallest amplitude"),
+    ("C10", "break", ["C10-R3"], FDE, _BINCOUNT, "    BinCount = np.empty_like(Count)\n    BinCount[:, :-1] = np.diff(Count, axis=1)\n    BinCount[:, -1] = Count[:, -1]", "block-wise BinCount with the sign of the differences lost"),
+    ("C10", "break", ["C10-R5"], CYC, _BINIFY_LOOPS, "    for (bim, bir), cyc in zip(zip(bin_indices_mean, bin_indices_range), cycles):\n"
+     "        if ensure_boundaries and (bim < 0 or bim > num_bins_mean or bir < 0 or bir >= num_bins_range):\n            continue\n        markov_matrix[bim, bir] += cyc[2]\n",
+     "merged _binify loop whose continue guard admits the row one past the end"),
+    ("C10", "break", ["C10-R5"], CYC, _GB_VEC, "        if check_bounds:\n            out_of_bounds = (mn < bb[0] or mx > bb[-1]) if right else (mn < bb[0] or mx >= bb[-1])\n", "nested ternary verdict with the right=True lower edge open"),
+    ("C10", "break", ["C10-R6"], CYC, _FINDAP_TAIL, "        def _full():\n            PV = np.full(len(y), False)\n            PV[~u] = pv\n            return PV\n\n        return pv if allu else _full()\n",
+     "closure scatters onto the removed samples"),
+    ("C10", "break", ["C10-R6"], CYC, _FINDAP_YU, "        allu = bool(u.all())\n        yu = y[u] if allu else y\n", "ternary arms of the retained samples swapped"),
+    ("C10", "break", ["C10-R6"], CYC, "        pv = np.ones(yu.size, bool)", "        pv = np.zeros(yu.size, bool)", "mask created all False: the first sample is dropped"),
+    ("C10", "break", ["C10-R7"], FDE, "        if np.any(pv):\n            x = BinAmps[j, pv] ** 2", "        if not pv.any():\n            continue\n        if True:\n            x = BinAmps[j, pv]", "continue guard; x of degree 1 compared through np.interp / tantheta"),
+]
